@@ -896,7 +896,7 @@ PROPS = {
             "trusted": ["tools/c07table.py encodes lexical scoping (accept iff the use is inside the scope of its definition)"],
             "assumptions": ["Go's terminating-statement analysis is not demanded: a value-returning function must end in return"]},
     "C06": {"run": run_c06,
-            "rule": "EXHAUSTIVE table (tools/c06table.py): 58 typed positions x 8 offered types x 5 contexts + returned values = 2344 single-position programs with "
+            "rule": "EXHAUSTIVE table (tools/c06table.py): 58 typed positions x 8 offered types x 5 contexts + arities, program-call arguments and returned values = 2425 single-position programs with "
                     "the verdict Go's rules / the README signatures prescribe, each through both converters; plus generated programs (unsafe mode) of which "
                     "about 15% have exactly one position corrupted; distinct and non-trivial = every entry",
             "trusted": ["tools/c06table.py encodes the typing rules (accept iff offered type is allowed at the position)"],
